@@ -287,6 +287,33 @@ Proof.
   apply (csq_ext a muL AL epsL Hxa Hdf Hddf HM T H0).
 Qed.
 
+(** the sound speed itself is continuous at the lower end (needs df, ddf continuous there) *)
+Lemma ratio_cont x : 0 < x -> ddf x < 0 -> continuity_pt df x -> continuity_pt ddf x ->
+  continuity_pt (fun t => (- df t) / (t * - ddf t)) x.
+Proof.
+  intros Hx Hd C1 C2.
+  apply (continuity_pt_div (fun t => - df t) (fun t => t * - ddf t)).
+  - apply continuity_pt_opp. exact C1.
+  - apply (continuity_pt_mult (fun t => t) (fun t => - ddf t)).
+    + apply derivable_continuous_pt. apply derivable_pt_id.
+    + apply continuity_pt_opp. exact C2.
+  - apply Rgt_not_eq. apply Rmult_lt_0_compat; lra.
+Qed.
+
+Lemma CSQ_cont_lo : continuity_pt df a -> continuity_pt ddf a -> continuity_pt CSQ a.
+Proof.
+  intros C1 C2.
+  apply (continuity_pt_glue CSQ (fun _ => DP a / DE a) (fun t => (- df t) / (t * - ddf t))).
+  - intros y Hy. unfold CSQ. destruct (Rlt_dec y a); [reflexivity|lra].
+  - exists (b - a). split; [lra|]. intros y Hy. unfold CSQ, DE.
+    destruct (Rlt_dec y a); [lra|]. destruct (Rlt_dec b y); [lra|].
+    assert (Hy' : a <= y <= b) by lra.
+    destruct (in_range y Hy') as [_ [H1 H2]]. rewrite H1, H2. reflexivity.
+  - unfold DE. destruct (in_range a Hxa) as [_ [H1 H2]]. rewrite H1, H2. reflexivity.
+  - apply continuity_pt_const. intros u v. reflexivity.
+  - apply ratio_cont; assumption.
+Qed.
+
 Lemma P_deriv_lo T : 0 < T -> T < a -> derivable_pt_lim P T (DP T).
 Proof.
   intros H0 HT.
@@ -424,6 +451,20 @@ Proof.
   apply (csq_ext b muH AH epsH Hxb Hdf Hddf HM T H0).
 Qed.
 
+Lemma CSQ_cont_hi : continuity_pt df b -> continuity_pt ddf b -> continuity_pt CSQ b.
+Proof.
+  intros C1 C2.
+  apply (continuity_pt_glue_r CSQ (fun _ => DP b / DE b) (fun t => (- df t) / (t * - ddf t))).
+  - intros y Hy. unfold CSQ. destruct (Rlt_dec y a); [lra|]. destruct (Rlt_dec b y); [reflexivity|lra].
+  - exists (b - a). split; [lra|]. intros y Hy. unfold CSQ, DE.
+    destruct (Rlt_dec y a); [lra|]. destruct (Rlt_dec b y); [lra|].
+    assert (Hy' : a <= y <= b) by lra.
+    destruct (in_range y Hy') as [_ [H1 H2]]. rewrite H1, H2. reflexivity.
+  - unfold DE. destruct (in_range b Hxb) as [_ [H1 H2]]. rewrite H1, H2. reflexivity.
+  - apply continuity_pt_const. intros u v. reflexivity.
+  - apply ratio_cont; [lra|assumption..].
+Qed.
+
 Lemma P_deriv_hi T : b < T -> derivable_pt_lim P T (DP T).
 Proof.
   intros HT. assert (H0 : 0 < T) by lra.
@@ -521,4 +562,17 @@ Lemma derivable_pt_lim_ext f g x l :
   (forall y, f y = g y) -> derivable_pt_lim g x l -> derivable_pt_lim f x l.
 Proof.
   intros H. apply derivable_pt_lim_locally_ext. exists 1. split; [lra|]. intros; apply H.
+Qed.
+
+(** de/dT: the energy density T p' - p has derivative T p'' wherever p' and p'' are the
+    derivatives of p and p' *)
+Lemma energy_deriv (p dp : R -> R) (ddpT T : R) :
+  derivable_pt_lim p T (dp T) -> derivable_pt_lim dp T ddpT ->
+  derivable_pt_lim (fun t => t * dp t - p t) T (T * ddpT).
+Proof.
+  intros Hp Hdp.
+  replace (T * ddpT) with ((1 * dp T + T * ddpT) - dp T) by ring.
+  apply (derivable_pt_lim_minus (fun t => t * dp t) p).
+  - apply (derivable_pt_lim_mult (fun t => t) dp); [apply derivable_pt_lim_id|exact Hdp].
+  - exact Hp.
 Qed.
